@@ -7,12 +7,15 @@ use marwood::lex::{self, Token, TokenType};
 use marwood::parse;
 use serde_json::json;
 
-const LEXEMES: [&str; 28] = [
+const LEXEMES: [&str; 30] = [
     "(", ")", "[", "]", "{", "}", "#(", "'", "`", ",", ".", "\"", "\\", "#\\", "#", ";", "\n", " ",
     "a", "1", "#t", "#x", "+", "-", "/", "é", "λ", "\u{2003}",
+    // characters a text file may carry without the user seeing them: a byte-order mark, a carriage return
+    "\u{feff}", "\r",
 ];
 
-const CHARS: [char; 30] = [
+const CHARS: [char; 32] = [
+    '\u{feff}', '\r',
     '(', ')', '[', '#', '\'', '`', ',', '.', '"', '\\', ';', '\n', ' ', '\t', 'a', 'x', 'e', '1', '0',
     '+', '-', '/', '|', '@', 'é', 'λ', '€', '😀', '\u{2003}', '\u{85}',
 ];
